@@ -92,7 +92,7 @@ PROPS = {
                 "(trusted/foreign signer, over this or another payload, key-id hint correct/empty/wrong, garbage, repeated). "
                 "SignatureVerifier built through an export shim with the principals in a chosen order. non-trivial = >=2 valid "
                 "signatures or a shared key",
-        "theorems": ["C05_sound", "C05_degenerate"],
+        "theorems": ["C05_sound", "C05_degenerate", "C05_exact_for_single_key_principals", "C05_object_signature_adds_its_holder"],
         "trusted": [
             "symbolic cryptography: a signature verifies iff made by that key over exactly that content (unforgeability, ssh/sshsig "
             "libraries assumed)",
@@ -111,7 +111,7 @@ PROPS = {
                 "quarter 'oddities': rules named like files (cycles, incl. 'targets'), duplicate rule names (diamonds), principal ids "
                 "redefined by another file, files without allow rule, no top-level file; one directed K7 case. Each policy is queried "
                 "with 8 covering paths. State objects are hand-built (metadata JSON in DSSE envelopes). non-trivial = >=2 rule files",
-        "theorems": ["C06_terminates", "C06_sound", "C06_own_principals_refuted"],
+        "theorems": ["C06_terminates", "C06_sound", "C06_own_principals_refuted", "C06_top_level_match_is_protected"],
         "trusted": [
             "fnmatch is modelled for ASCII patterns without '[' (flags 0); bracket expressions are outside the model (the library "
             "panics on some of them, e.g. '[\u00e9' - observation)",
